@@ -100,7 +100,7 @@ def run_property(prop, only=None, verbose=True):
     for bd in bundles:
         results.extend(run_bundle(prop, bd, verbose))
     # a bundle member that was missed is retried alone (mutants can mask each other)
-    retry = [r for r in results if r["status"] == "MISSED" and r.get("bundled")]
+    retry = [r for r in results if r["status"] in ("MISSED", "ERROR") and r.get("bundled")]
     for r in retry:
         m = next(x for x in muts if x["id"] == r["id"])
         r2 = run_bundle(prop, [m], verbose)[0]
